@@ -18,7 +18,7 @@ import (
 )
 
 func init() {
-	register("C20", "sessions with a capturing logging.Logger at all four levels: random printable passwords (8-32 bytes, also ones beginning with PASS, containing spaces, colons, %-verbs) x negotiation on/off x tracking on/off x {normal session with traffic, server closes at once, dial error, TLS handshake failure, the 1st..4th write failing (so the failure lands on CAP LS / PASS / NICK / USER), flood protection on with a reconnect right after a burst (the PASS line is held back by rate limiting)}; no record (format, any argument, or the rendered text) may contain the password (Spec.Register.occurs, evaluated by the driver), twin runs with same-length passwords must log identically, and the text logged for each outgoing line is compared with the model's logOf; non-trivial = session logged the masked PASS line; distinct by (password, scenario)", c20)
+	register("C20", "sessions with a capturing logging.Logger at all four levels: random printable passwords (8-32 bytes, also ones beginning with PASS, containing spaces, colons, %-verbs) x negotiation on/off x tracking on/off x {normal session with traffic, server closes at once, dial error, TLS handshake failure, the 1st..4th write failing (so the failure lands on CAP LS / PASS / NICK / USER), flood protection on with a reconnect right after a burst (the PASS line is held back by rate limiting), Config().Pass cleared / replaced / shortened right after Connect while the PASS line is still queued behind a gated socket}; no record (format, any argument, or the rendered text) may contain the password (Spec.Register.occurs, evaluated by the driver), twin runs with same-length passwords must log identically, and the text logged for each outgoing line is compared with the model's logOf; non-trivial = session logged the masked PASS line; distinct by (password, scenario)", c20)
 }
 
 type capLogger struct {
@@ -142,6 +142,28 @@ func c20Session(pass string, capNeg, track bool, scenario int) (*capLogger, []st
 				conn.Close()
 			}
 		}
+	case 9, 10, 11: // the application changes Config().Pass right after Connect, while the PASS line is still queued
+		// (Config's comment: such a change "will have no effect until the client reconnects"): the password of THIS
+		// connection is the one on the wire, and it must stay out of the log whatever the configuration says by then
+		url, conns := memconn.Listen()
+		gate := memconn.PresetGateWrites(url)
+		cfg := client.NewConfig("me")
+		cfg.Server, cfg.Proxy, cfg.Flood, cfg.PingFreq = "irc.test", url, true, 0
+		mod(cfg)
+		conn := client.Client(cfg)
+		pre(conn)
+		if conn.Connect() == nil {
+			sc := <-conns
+			conn.Config().Pass = []string{"", "next-" + pass, pass[:len(pass)/2]}[scenario-9]
+			for i := 0; i < 64; i++ {
+				gate <- struct{}{}
+			}
+			sc.WaitLine(0, func(l string) bool { return strings.HasPrefix(l, "USER ") }, 5*time.Second)
+			conn.Raw("PRIVMSG #c :after registration")
+			sc.WaitLine(0, func(l string) bool { return strings.HasPrefix(l, "PRIVMSG ") }, 5*time.Second)
+			wire = sc.Lines()
+			conn.Close()
+		}
 	case 2: // dial error
 		url, _ := memconn.Listen()
 		memconn.FailDial(url, errors.New("connection refused"))
@@ -189,6 +211,9 @@ func c20(c *Ctx) {
 	for i := 0; i < n; i++ {
 		pass := genPassword(c)
 		capNeg, track, scenario := c.R.Bool(), c.R.Bool(), c.R.N(8)
+		if c.R.P(1, 6) {
+			scenario = 9 + c.R.N(3)
+		}
 		if c.R.P(1, 3) {
 			scenario = 0
 		}
